@@ -189,6 +189,10 @@ static RunResult exec_wfault(const Plan &p)
 	compare(faults, std::to_string(faults.size()) + " seeded faults");
 	sim_wstats ws = g_tablelib_wstats;
 	res.nontrivial = ws.shorts >= 1 && ws.eintrs >= 1;
+	// reach of the seam: the writer must hand its bytes to write / writev / pwrite / pwritev (the calls the seam owns);
+	// if it ever uses something else the faults of this check never land and its silence would mean nothing
+	if (ws.calls > 0) res.probes["write-family-calls-seen"]++; else res.unjudged["writer-made-no-call-through-the-write-seam"]++;
+	if (ws.vectored) res.probes["vectored-write-calls"] += ws.vectored;
 	return res;
 }
 
